@@ -90,6 +90,11 @@ func extractFromSlice(curValue any, indexStr string, curSegment string, iter Ite
 		return nil, fmt.Errorf("invalid type of value `%+v`, %T", curValue, curValue)
 	}
 
+	if valueLen == 0 {
+		// nothing to pick: every kind of index (number, next, rand, last) would divide by zero or run out of range
+		return nil, fmt.Errorf("can't take element `%s` of empty list %T", indexStr, curValue)
+	}
+
 	index, err := calcIndex(indexStr, curSegment, valueLen, iter)
 	if err != nil {
 		return nil, fmt.Errorf("failed to calc index for %T; err: %w", curValue, err)
